@@ -1,6 +1,6 @@
 """C06 configuration: `<` is a strict total order consistent with `=`, and sorting follows it."""
 PROP = dict(
-    quick_n=9000, thorough_n=100000,
+    quick_n=6000, thorough_n=100000,
     trusted_base=[
         "rel.Value.Equal is modelled as equality of canonical forms (Impl.equal a b := key a = key b, the key being what the "
         "Less methods compare); Equal's own code is C02's subject. Every case compares Equal (directly and through `=`) with it.",
@@ -38,5 +38,5 @@ PROP = dict(
            "rel.TupleOrderedNames", "rel.NewTuple", "rel.SetBuilder.Add", "rel.SetBuilder.Finish", "rel.asString", "rel.asBytes",
            "rel.asArray", "rel.NewDict", "rel.NewOffsetArray", "rel.newSetFromFrozenSet", "rel.GenericTuple.Negate",
            "rel.GenericSet.Negate", "rel.EmptySet.Negate", "rel.ArrayItemTuple.Negate", "rel.DictEntryTuple.Negate"],
-    env={},
+    env={"HARNESS_TIMEOUT_MS": "120000"},
 )
